@@ -72,6 +72,17 @@ def run(ctx):
                     q["resp"] = rt.small_values(ctx.rng, len(g)); q["w"] = rt.weights(ctx.rng, len(g)); q["stat"] = "mean"
             seqs += seq
         presets[name] = seqs
+    # perfectly separated / binary responses with the t statistic: infinite and NaN statistics, compared in extended reals
+    sep = []
+    for _ in range(ctx.n(14, 140)):
+        g_, c_ = rt.strat_design(ctx.rng); n_ = len(g_)
+        if c_.count(0) < 1 or c_.count(1) < 1 or n_ < 3:
+            continue
+        kind_ = ctx.rng.choice(["separated", "separated", "reversed", "binary"])
+        resp_ = [float(v) for v in c_] if kind_ == "separated" else ([float(1 - v) for v in c_] if kind_ == "reversed" else rt.small_values(ctx.rng, n_, "binary"))
+        sep.append({"group": g_, "cond": c_, "resp": resp_, "reps": rt.pick_reps(ctx.rng, 10), "alt": ctx.rng.choice(rt.ALTS), "plus1": ctx.rng.random() < 0.5,
+                    "keep": ctx.rng.random() < 0.5, "stat": "t", "w": rt.weights(ctx.rng, n_), "noscale": True})
+    presets["stratified_two_sample"] = presets.get("stratified_two_sample", []) + sep
     o3, m3 = rt.run_recorded(ctx, rt.STRAT, 0, presets=presets)
     outs = run_model(ops + o3)
     rt.compare_recorded(ctx, ops, meta, outs[:len(ops)], "stratified-model-vs-impl")
